@@ -415,6 +415,12 @@ func Harness_C15_ending_survives_a_failed_write() {
 	o := w.observe(oldRows)
 	verifAssert(len(o.rows) == 0, "fixture: the finalizing write failed")
 	verifAssert(t.currentCall == nil, "call-ended-although-the-ending-was-not-recorded")
+	// the parties' sessions are told the call is over (hang-up), recorded or not
+	told := 0
+	for i := 0; i < 4; i++ {
+		told += verifCountInfo(o.queues[i], "hang-up")
+	}
+	verifAssert(told >= 1, "parties-told-the-call-is-over")
 	verifAssert(!verifTimerActive(t.callEstablishmentTimer), "nothing-times-a-finished-call")
 	// a new call can be started (by the callee, who may publish)
 	pud := t.perUser[w.b]
@@ -541,6 +547,53 @@ func Harness_C15_accept_with_stuck_originator() {
 		verifAssert(!still, "stuck-session-detached")
 		verifAssert(t.currentCall == nil, "dropping-the-caller-ends-the-call")
 		verifAssert(!verifTimerActive(t.callEstablishmentTimer), "nothing-times-a-finished-call")
+	}
+	verifReach("end")
+}
+
+// ---- a whole short call seen by a slow device: invitation, then the caller hangs up (or the callee declines, or
+// the call times out) before the device has read its queue. The invitation copy queued for it still carries the
+// headers that were published (C02: every copy carries the published headers unchanged) - later replacement
+// messages are separate messages with their own headers.
+func Harness_C15_invite_copy_keeps_its_headers() {
+	w := verifCallSetup()
+	t := w.t
+	verifAssume(w.state == 0 && globals.iceServers != nil)
+	// a concrete message counter: the reference header "replace" is number formatting, not the subject
+	t.lastID = 41
+	w.fx.store.topics[t.name].SeqId = 41
+	oldLast := t.lastID
+	inv := &ClientComMessage{
+		Pub:    &MsgClientPub{Id: "c1", Topic: w.b.UserId(), Head: map[string]any{"webrtc": "started", "mime": "application/x-tinode-webrtc"}, Content: verifCallContent},
+		Id:     "c1", AsUser: w.a.UserId(), AuthLvl: int(auth.LevelAuth), Original: w.b.UserId(), RcptTo: t.name,
+		Timestamp: types.TimeNow(), sess: w.sess[0], init: true}
+	t.handleClientMsg(inv)
+	verifAssert(t.currentCall != nil && t.currentCall.seq == oldLast+1, "call-started")
+	switch verifChoose("ending", 3) {
+	case 0:
+		t.terminateCallInProgress(true)
+	case 1:
+		t.handleClientMsg(&ClientComMessage{Note: &MsgClientNote{Topic: w.b.UserId(), What: "call", Event: "hang-up", SeqId: oldLast + 1},
+			AsUser: w.a.UserId(), AuthLvl: int(auth.LevelAuth), Original: w.b.UserId(), RcptTo: t.name, Timestamp: types.TimeNow(), sess: w.sess[0], init: true})
+	case 2:
+		t.handleClientMsg(&ClientComMessage{Note: &MsgClientNote{Topic: w.a.UserId(), What: "call", Event: "hang-up", SeqId: oldLast + 1},
+			AsUser: w.b.UserId(), AuthLvl: int(auth.LevelAuth), Original: w.a.UserId(), RcptTo: t.name, Timestamp: types.TimeNow(), sess: w.sess[2], init: true})
+	}
+	verifAssert(t.currentCall == nil, "call-ended")
+	// the callee's second device reads its queue only now
+	var datas []*MsgServerData
+	for _, m := range verifDrainSend(w.sess[3]) {
+		if m != nil && m.Data != nil {
+			datas = append(datas, m.Data)
+		}
+	}
+	verifAssert(len(datas) == 2, "device-got-the-invitation-and-the-ending")
+	if len(datas) == 2 {
+		first, second := datas[0], datas[1]
+		_, replaced := first.Head["replace"]
+		verifAssert(first.SeqId == oldLast+1 && first.Head["webrtc"] == "started" && !replaced && first.Head["mime"] == "application/x-tinode-webrtc",
+			"invitation-copy-carries-the-published-headers")
+		verifAssert(second.SeqId == oldLast+2 && second.Head["replace"] == ":"+itoa(oldLast+1) && second.Head["webrtc"] != "started", "ending-is-a-separate-message")
 	}
 	verifReach("end")
 }
